@@ -91,7 +91,7 @@ def run(ctx):
     ctx.cov["rule"] = ("case = a permutation generator list (with names, a path) or a list of integer matrices with a modulus; non-trivial when not every generator is an involution "
                        "or the identity; distinct by canonical JSON")
     ctx.assumptions += ["completeness of MatrixGenerator.inv rests on LAPACK returning the inverse within 1/2 of the integer inverse (validated by exploration only: the partial part)"]
-    ctx.prove(extra=["DefRun"])
+    ctx.prove(extra=["IntInverse", "DefRun"])
 
     # ---------------- permutations ----------------
     cases, metas = [], []
@@ -174,9 +174,12 @@ def run(ctx):
     recorded_exact = []
     orig_exact = getattr(cgd, "_integer_inverse", None)
     if orig_exact is not None:
+        exact_calls = []
+
         def rec_exact(a):
             r = orig_exact(a)
             recorded_exact.append(None if r is None else np.asarray(r).tolist())
+            exact_calls.append((np.asarray(a).tolist(), recorded_exact[-1]))
             return r
         cgd._integer_inverse = rec_exact
     try:
@@ -282,6 +285,37 @@ def run(ctx):
         cgd.np.linalg.inv = orig_inv
         if orig_exact is not None:
             cgd._integer_inverse = orig_exact
+    # the exact fallback itself: model IntInverse.integer_inverse (proved sound and complete) = implementation, on every call the run made
+    # plus direct calls on matrices of every kind (singular, non-integral inverse, unimodular with large entries)
+    if orig_exact is not None:
+        direct = []
+        for _ in range(ctx.budget(120, 1200)):
+            n = rng.randint(1, 5)
+            r = rng.random()
+            if r < 0.5:
+                M = unimodular(rng, n, rng.randint(1, 4 * n), rng.choice([2, 3, 2**10, 2**20, 2**40]))
+            elif r < 0.8:
+                M = [[rng.randint(-4, 4) for _ in range(n)] for _ in range(n)]
+            else:
+                M = unimodular(rng, n, rng.randint(1, 6), 3)
+                i = rng.randrange(n)
+                M[i] = [2 * v for v in M[i]]                       # determinant +-2: the inverse is not integral
+            if max(abs(v) for row in M for v in row) >= 2**62:
+                continue
+            out = orig_exact(np.array(M, dtype=np.int64))
+            direct.append((M, None if out is None else np.asarray(out).tolist()))
+            ei = exact_integer_inverse(M) if n <= 4 else None
+            if n <= 4 and (ei is not None and max(abs(v) for row in ei for v in row) < 2**63) != (out is not None):
+                ctx.violation("property_fails", "_integer_inverse disagrees with the adjugate oracle on whether an integer inverse exists", {"class": "exact_inverse", "matrix": M}, True)
+        allc = exact_calls + direct
+        ic = ["(" + mat_lit(M) + ", " + copt(r, mat_lit) + ")" for M, r in allc]
+        bad = ctx.coq_failing("Base Matrix IntInverse", "", "list (list Z) * option (list (list Z))", ic, "check_integer_inverse", "intinv", shard=150)
+        ctx.cov["disagreements_checked"] += len(ic)
+        ctx.count("exact_inverse_calls_compared", len(ic))
+        for i in bad[:3]:
+            ctx.violation("correspondence", "model of the exact integer inverse differs from _integer_inverse", {"class": "exact_inverse", "matrix": allc[i][0]}, False)
+    else:
+        raise TieBroken("cayley_graph_def._integer_inverse (the exact fallback of MatrixGenerator.inv) no longer exists")
     ctx.sample(metas[0])
     bad = ctx.coq_failing("Base Matrix Def DefRun", "", "mat_def_case", cases, "check_mat_def", "matdef", shard=200)
     ctx.cov["disagreements_checked"] += len(cases)
